@@ -317,6 +317,8 @@ def abs7(ctx, pid):
         raise AnalysisError("anchor vanished: ScratchDB.copy")
     rets = [n for n in walk_shallow(g.node) if isinstance(n, ast.Return) and n.value is not None]
     fresh = bool(rets) and all(ctx.E.is_fresh_expr(r.value, g) for r in rets)
+    if g.is_generator and any(d.endswith(("to_dict", "to_tuple", "to_list", "to_set")) for d in g.decos) and not rets:
+        fresh = True  # the decorator builds a new container from what the generator yields
     if fresh:
         ctx.ok("copy-fresh:ScratchDB.copy", g.loc(), "copy() builds a new mapping (merge + valfilter)", nontrivial=True).rule = "AL3"
     else:
@@ -814,6 +816,40 @@ def copy_shape(ctx, pid):
     lam_ok = len(lam) == 1 and isinstance(lam[0].body, ast.Compare) and isinstance(lam[0].body.ops[0], ast.IsNot) and _is_deleted_marker(ctx, lam[0].body.comparators[0], f) \
         and isinstance(lam[0].body.left, ast.Name) and lam[0].body.left.id == lam[0].args.args[0].arg
     c = "overlay:ScratchDB.copy"
+    # second spelling: a generator under @to_dict that yields (key, value) for every item of the merged mapping
+    # whose value is not the DELETED marker
+    if f.is_generator and any(d.endswith("to_dict") for d in f.decos):
+        rows = set()
+        loops = [n for n in ast.walk(f.node) if isinstance(n, ast.For)]
+        it_ok = False
+        if len(loops) == 1 and isinstance(loops[0].target, ast.Tuple) and len(loops[0].target.elts) == 2:
+            from ..sym import State
+            it = None
+            for p, st in pq.states(ctx, f, unroll=1):
+                for ev in st.events:
+                    if ev.k == "bind" and ev.a == "for":
+                        it = eng.ev(ev.b, f, st)
+            it_ok = it == ("call", "m:items", (merged,), ())
+            kname, vname = (x.id if isinstance(x, ast.Name) else None for x in loops[0].target.elts)
+            for p in ctx.X.paths(f, 1):
+                live = None
+                y = False
+                for ev in p.events:
+                    if ev.k == "assume" and isinstance(ev.node, ast.Compare) and len(ev.node.ops) == 1 and isinstance(ev.node.ops[0], (ast.Is, ast.IsNot)) \
+                            and isinstance(ev.node.left, ast.Name) and ev.node.left.id == vname and _is_deleted_marker(ctx, ev.node.comparators[0], f):
+                        live = (not ev.a) if isinstance(ev.node.ops[0], ast.Is) else ev.a
+                    if ev.k == "yield" and isinstance(ev.node, ast.Yield):
+                        v = ev.node.value
+                        y = isinstance(v, ast.Tuple) and [getattr(x, "id", None) for x in v.elts] == [kname, vname]
+                        if not y:
+                            rows.add(("?", "bad-yield"))
+                if live is not None:
+                    rows.add((live, y))
+        if it_ok and rows == {(True, True), (False, False)}:
+            ctx.ok(c, f.loc(), "dict of the (key, value) pairs of merge(wrapped_db, cache) whose value is not DELETED: the buffer overrides the wrapped db, deletions are dropped")
+        else:
+            ctx.bad(c, f.loc(), "copy() does not yield exactly the non-DELETED items of merge(wrapped_db, cache) (iterates the merged items: %s; rows %s)" % (it_ok, sorted(rows, key=str)))
+        return
     if ok and lam_ok and any(d.endswith("to_dict") for d in f.decos):
         ctx.ok(c, f.loc(), "dict(valfilter(is not DELETED, merge(wrapped_db, cache))): the buffer overrides the wrapped db, deletions are dropped")
     elif rets and not ok:
